@@ -8,7 +8,8 @@ from __future__ import annotations
 
 import ast
 
-from ..astutil import ancestors, calls_in, const_value, dotted, enclosing_stmt, handler_catches, is_within, kwarg, src, walk_local
+from ..cfg import cfg_of, deref_at
+from ..astutil import deref, ancestors, calls_in, const_value, dotted, enclosing_stmt, handler_catches, is_within, kwarg, src, walk_local
 from ..loader import AnalysisError
 from ..terms import Env, Evaluator, alts, contains, find, show, strip_sites, walk
 from .backends import INTERFACE, backend_classes, own_methods
@@ -110,7 +111,8 @@ def r2_pagination(ctx):
     dec_ok = any(isinstance(a, ast.Assign) and isinstance(a.value, ast.Call) and isinstance(a.value.func, ast.Attribute) and a.value.func.attr == 'json' for a in walk_local(lp))
     ctx.check(sname is not None and okc and dec_ok, 'C13.R2', f'{func_label(bl)}|b2-start-loop-carried', loc(bl, lp), "B2 listing: startFileName of the next request is nextFileName of the current page", 'B2 listing: the next request does not start at nextFileName of the current page')
     brk = [i for i in walk_local(lp) if isinstance(i, ast.If) and any(isinstance(s, ast.Break) for s in i.body)]
-    okb = len(brk) == 1 and isinstance(brk[0].test, ast.Compare) and isinstance(brk[0].test.ops[0], ast.Is) and isinstance(brk[0].test.left, ast.Subscript) and isinstance(brk[0].test.left.slice, ast.Constant) and brk[0].test.left.slice.value == 'nextFileName' and isinstance(brk[0].test.comparators[0], ast.Constant) and brk[0].test.comparators[0].value is None
+    bleft = deref_at(bl.node, brk[0].test.left) if len(brk) == 1 and isinstance(brk[0].test, ast.Compare) else None
+    okb = len(brk) == 1 and isinstance(brk[0].test, ast.Compare) and isinstance(brk[0].test.ops[0], ast.Is) and isinstance(bleft, ast.Subscript) and isinstance(bleft.slice, ast.Constant) and bleft.slice.value == 'nextFileName' and isinstance(brk[0].test.comparators[0], ast.Constant) and brk[0].test.comparators[0].value is None
     all_breaks = [n for n in walk_local(lp) if isinstance(n, (ast.Break, ast.Return))]
     ctx.check(okb and len(all_breaks) == 1, 'C13.R2', f'{func_label(bl)}|b2-terminates-on-marker', loc(bl, lp), 'B2 listing: the loop ends exactly when nextFileName is None', 'B2 listing: the loop can end on another condition than nextFileName is None (e.g. an empty page): later files are not listed')
     # yields precede the break test
@@ -244,18 +246,31 @@ def r4_idempotent_delete(ctx):
     bd = b2.methods.get('delete')
     ctx.analysed(bd)
     codes = set()
-    returns_in_handler = False
-    reraises = False
+    cfg = cfg_of(bd.node)
+    tolerated_only = True
+    can_tolerate = False
+    nh = 0
     for t in walk_local(bd.node):
         if isinstance(t, ast.Try):
             for h in t.handlers:
                 if any(x.endswith('HTTPStatusError') for x in handler_catches(h)):
+                    nh += 1
+                    member_ifs = []
                     for n in ast.walk(h):
-                        if isinstance(n, ast.Compare) and any(isinstance(o, ast.In) for o in n.ops) and isinstance(n.comparators[0], (ast.Tuple, ast.Set, ast.List)):
-                            codes |= {e.value for e in n.comparators[0].elts if isinstance(e, ast.Constant)}
-                        if isinstance(n, ast.Return):
-                            returns_in_handler = True
-                    reraises = isinstance(h.body[-1], ast.Raise)
+                        if isinstance(n, ast.If):
+                            tt = deref(bd.node, n.test)
+                            if isinstance(tt, ast.Compare) and len(tt.ops) == 1 and isinstance(tt.ops[0], ast.In) and isinstance(tt.comparators[0], (ast.Tuple, ast.Set, ast.List)):
+                                codes |= {e.value for e in tt.comparators[0].elts if isinstance(e, ast.Constant)}
+                                member_ifs.append(n)
+                    trues = [x for n in member_ifs for x in cfg.nodes_of(n, 'true')]
+                    for hn in cfg.nodes_of(h, 'handler'):
+                        # a status error is swallowed (the call completes normally) only through the "code is tolerated" edge
+                        if cfg.path(hn, [cfg.exit], avoid=trues) is not None:
+                            tolerated_only = False
+                        if cfg.path(hn, [cfg.exit]) is not None:
+                            can_tolerate = True
+    returns_in_handler = can_tolerate
+    reraises = tolerated_only and nh > 0
     ctx.check(codes == {'already_hidden', 'no_such_file'} and returns_in_handler and reraises, 'C13.R4', f'{func_label(bd)}|b2-delete-idempotent', loc(bd, bd.node), "B2.delete tolerates exactly the 'already_hidden' / 'no_such_file' answers and re-raises everything else", f'B2.delete tolerance changed (codes {sorted(codes)}, re-raises: {reraises})')
 
 
